@@ -268,6 +268,22 @@ def execute(mat, ctx):
                     scenarios.append(("library", chain_texts + lib))
             except RuntimeError:
                 pass
+            # the same module *object* handed over twice (sampling with replacement, mods + mods): tolerated, not an internal error
+            for rep in range(2):
+                ents = [_entity(M, t) for t in (chain_texts if rep == 0 else chain_texts[:-1])]
+                if not ents:
+                    continue
+                ents = ents + [ents[rng.randrange(len(ents))]]
+                rng.shuffle(ents)
+                ctx.count("evaluations")
+                ctx.count("c17_repeated_entity_assemblies")
+                with warnings.catch_warnings():
+                    warnings.simplefilter("ignore")
+                    try:
+                        _entity(V, vt).assemble(*ents)       # judged by the monitor
+                        ctx.count("c17_assemblies_succeeded")
+                    except (Exception, asmmon.RunawayWalk):
+                        pass
             for what, texts in scenarios:
                 order = list(texts)
                 rng.shuffle(order)
